@@ -172,7 +172,18 @@ func (c03) Runs(tier string) int { return tierLen(tier, 4000, 60000) }
 
 func genMalformedInput(r *kern.Rng, maxLen int) scen.InputSpec {
 	var in scen.InputSpec
-	switch r.Weighted(2, 4, 5, 3) {
+	switch r.Weighted(2, 4, 5, 3, 3) {
+	case 4: // stale-table probe: deep dynamic codes first, then a block whose code leaves slots unassigned
+		p := genSynthParams(r, 20000)
+		p.Shape = r.Pick(2, 2, 1)
+		p.TypeWeights = [3]int{0, r.Pick(0, 0, 1), 3}
+		p.MaxBlocks = r.Pick(3, 4, 6)
+		p.Alphabet = r.Pick(64, 256, 256)
+		p.EmptyPct, p.SyncPct = 0, 0
+		p.Fault = r.PickS(ref.FaultUnassigned, ref.FaultUnassigned, ref.FaultNoDistButUsed, ref.FaultBadDistSym, ref.FaultBadLenSym)
+		p.FaultBlock = r.Pick(1, 2, 3)
+		p.TailGarbage = r.Pick(600, 3000)
+		in.Parts = []scen.StreamSpec{{Enc: "synth", Synth: p, SynthSeed: r.Uint64()}}
 	case 0: // random bytes, often steered to a compressed block type
 		n := r.Pick(0, 1, 2, 3, 5, 16, 64, 300, 1000, 5000)
 		b := r.Bytes(n)
